@@ -162,34 +162,121 @@ def make_shape(s):
     return ShapeGroup([make_shape(m) for m in s["m"]])
 
 
-def make_shape_via(s, seed):
+def make_shape_via(s, seed, trace=None):
     """the shape of spec s reached through its public setters: an object built with other values answers queries
     (vertices, point containment, exported geometry), then length / width / center / orientation (radius / center;
-    vertices) are assigned the values of s.  What the object denotes is given by its current attribute values."""
+    vertices) are assigned the values of s, with further queries in between.  What the object denotes is given by its
+    current attribute values.  trace (a list): receives one record per primitive object - the history as model
+    operations over value tokens, with the cache flags of the real object after every step and, for queries, whether
+    the answer equals that of an object freshly constructed from the current values (Corr/C06Cache.v)."""
     import random
     r = random.Random(seed)
     if s["k"] == "group":
-        return ShapeGroup([make_shape_via(m, r.randrange(1 << 30)) for m in s["m"]])
+        return ShapeGroup([make_shape_via(m, r.randrange(1 << 30), trace) for m in s["m"]])
     dx, dy = r.choice([3.0, -2.5, 0.75]), r.choice([-4.0, 1.5, 6.25])
+    tok = [0]
+
+    def new_tok():
+        tok[0] += 1
+        return tok[0]
+    steps = []
+    MISSING = object()
+
+    def flag(obj, name):
+        v = getattr(obj, name, MISSING)
+        return None if v is MISSING else v is not None
     if s["k"] == "rect":
-        sh = Rectangle(s["l"] + r.choice([0.0, 1.5, 3.0]), s["w"] * r.choice([1.0, 2.0, 0.5]),
-                       np.array([s["c"][0] + dx, s["c"][1] + dy], dtype=float), r.choice([0.0, 0.4, s["o"]]))
-        sh.vertices, sh.shapely_object
-        sh.contains_point(np.array([s["c"][0] + dx, s["c"][1] + dy], dtype=float))
-        sets = [("length", s["l"]), ("width", s["w"]), ("center", np.array(s["c"], dtype=float)), ("orientation", s["o"])]
+        cur = {"length": s["l"] + r.choice([0.0, 1.5, 3.0]), "width": s["w"] * r.choice([1.0, 2.0, 0.5]),
+               "center": np.array([s["c"][0] + dx, s["c"][1] + dy], dtype=float), "orientation": r.choice([0.0, 0.4, s["o"]])}
+        sh = Rectangle(cur["length"], cur["width"], cur["center"], cur["orientation"])
+        init = [new_tok() for _ in range(4)]
+
+        def obs(fresh_same):
+            steps.append([op, flag(sh, "_vertices"), flag(sh, "_Rectangle__shapely_polygon"), fresh_same])
+
+        def query(kind):
+            nonlocal op
+            fresh = Rectangle(cur["length"], cur["width"], cur["center"], cur["orientation"])
+            if kind == "v":
+                op = "RQVerts"
+                obs(bool(np.array_equal(sh.vertices, fresh.vertices)))
+            else:
+                op = "RQGeom"
+                if r.random() < 0.5:
+                    sh.contains_point(np.array(s["c"], dtype=float))
+                obs(bool(np.array_equal(np.array(sh.shapely_object.exterior.coords),
+                                        np.array(fresh.shapely_object.exterior.coords))))
+        op = None
+        for k in r.sample(["v", "g", "g"], r.randint(1, 3)):
+            query(k)
+        sets = [("length", s["l"], "RSetL"), ("width", s["w"], "RSetW"), ("center", np.array(s["c"], dtype=float), "RSetC"),
+                ("orientation", s["o"], "RSetO")]
+        r.shuffle(sets)
+        for a, v, ctor in sets:
+            setattr(sh, a, v)
+            cur[a] = v
+            op = f"({ctor} {new_tok()})"
+            obs(True)
+            if r.random() < 0.4:
+                query(r.choice(["v", "g"]))
+        rec = {"k": "rect", "init": init, "steps": steps}
     elif s["k"] == "circ":
-        sh = Circle(s["r"] * r.choice([1.0, 2.0, 0.5]), np.array([s["c"][0] + dx, s["c"][1] + dy], dtype=float))
-        sh.shapely_object
+        cur = {"radius": s["r"] * r.choice([1.0, 2.0, 0.5]), "center": np.array([s["c"][0] + dx, s["c"][1] + dy], dtype=float)}
+        sh = Circle(cur["radius"], cur["center"])
+        init = [new_tok() for _ in range(2)]
+
+        def cobs(fresh_same):
+            steps.append([op, False, flag(sh, "_shapely_circle"), fresh_same])
+
+        def cquery():
+            nonlocal op
+            op = "CQGeom"
+            fresh = Circle(cur["radius"], cur["center"])
+            cobs(bool(np.array_equal(np.array(sh.shapely_object.exterior.coords),
+                                     np.array(fresh.shapely_object.exterior.coords))))
+        op = None
+        if r.random() < 0.8:
+            cquery()
         sh.contains_point(np.array(s["c"], dtype=float))
-        sets = [("radius", s["r"]), ("center", np.array(s["c"], dtype=float))]
+        sets = [("radius", s["r"], "CSetR"), ("center", np.array(s["c"], dtype=float), "CSetC")]
+        r.shuffle(sets)
+        for a, v, ctor in sets:
+            setattr(sh, a, v)
+            cur[a] = v
+            op = f"({ctor} {new_tok()})"
+            cobs(True)
+            if r.random() < 0.5:
+                cquery()
+        rec = {"k": "circ", "init": init, "steps": steps}
     else:
-        sh = Polygon(np.array([[x + dx, y + dy] for x, y in s["v"]], dtype=float))
-        sh.shapely_object, sh.center
-        sh.contains_point(np.array(s["v"][0], dtype=float))
-        sets = [("vertices", np.array(s["v"], dtype=float))]
-    r.shuffle(sets)
-    for a, v in sets:
-        setattr(sh, a, v)
+        v0 = np.array([[x + dx, y + dy] for x, y in s["v"]], dtype=float)
+        sh = Polygon(v0)
+        init = [new_tok()]
+        keep = [getattr(sh, "_shapely_polygon", None)]      # keeps earlier polygon objects alive (identity comparison)
+
+        def pobs(fresh_same):
+            g = getattr(sh, "_shapely_polygon", MISSING)
+            steps.append([op, False, None if g is MISSING else g is not keep[-1], fresh_same])
+            keep.append(None if g is MISSING else g)
+
+        def pquery(vs):
+            nonlocal op
+            op = "PQGeom"
+            fresh = Polygon(np.array(vs, dtype=float))
+            sh.contains_point(np.array(s["v"][0], dtype=float)), sh.center
+            pobs(bool(sh.shapely_object.equals(fresh.shapely_object)))
+        op = None
+        pquery(v0)
+        mids = [np.array([[x + 0.5 * dx, y] for x, y in s["v"]], dtype=float)] if r.random() < 0.4 else []
+        for vs in mids + [np.array(s["v"], dtype=float)]:
+            sh.vertices = vs
+            op = f"(PSetV [{new_tok()}])"
+            pobs(True)
+            if r.random() < 0.6 or vs is not mids[0] if mids else True:
+                pquery(vs)
+        rec = {"k": "poly", "init": init, "steps": steps}
+    if trace is not None:
+        trace.append(rec)
     return sh
 
 
